@@ -141,25 +141,47 @@ Section Run.
   Notation MS := (mstate kv N).
   Notation SS := (sstate kv N).
 
-  (* runs the statements on M and on S side by side; output: results of M, "|", results of S *)
-  Fixpoint run_stmts (gs : list (list N)) (st : bst) (m : MS) (s : SS) (accm accs : list string)
-    : list string * list string :=
+  (* which stored key of S does a keyed operation meet?  (coverage measurement only)
+     h<stored key> hit | n<key> insert of a new entry | m miss | - no key / rejected *)
+  Fixpoint find_key (k : kv) (s : SS) : option kv :=
+    match s with
+    | [] => None
+    | (k', _) :: r => if veq k k' then Some k' else find_key k r
+    end.
+
+  Definition op_info (s : SS) (o : op kv N) : string :=
+    let look (k : kv) (ins : bool) :=
+      if has_hash k then
+        match find_key k s with
+        | Some k' => "h" ++ show_kv k'
+        | None => if ins then "n" ++ show_kv k else "m"
+        end
+      else "-" in
+    match o with
+    | OInsert k _ => look k true
+    | OGet k | OHasKey k | ORemove k => look k false
+    | _ => "-"
+    end.
+
+  (* runs the statements on M and on S side by side; output: results of M, "|", results of S, "|", op_info *)
+  Fixpoint run_stmts (gs : list (list N)) (st : bst) (m : MS) (s : SS) (accm accs acci : list string)
+    : list string * list string * list string :=
     match gs with
-    | [] => (rev accm, rev accs)
+    | [] => (rev accm, rev accs, rev acci)
     | g :: r =>
         match parse_stmt size st g with
-        | (SDecl, st') => run_stmts r st' m s accm accs
-        | (SBad, st') => (rev ("BAD" :: accm), rev ("BAD" :: accs))
+        | (SDecl, st') => run_stmts r st' m s accm accs acci
+        | (SBad, st') => (rev ("BAD" :: accm), rev ("BAD" :: accs), rev acci)
         | (SOp o, st') =>
             let '(m', x) := m_step kv N veq (vhash norm hc) has_hash m o in
             let '(s', y) := s_step kv N veq has_hash s o in
-            run_stmts r st' m' s' (show_res x :: accm) (show_res y :: accs)
+            run_stmts r st' m' s' (show_res x :: accm) (show_res y :: accs) (op_info s o :: acci)
         end
     end.
 
   Definition run_prog_w (w : string) : string :=
-    let '(a, b) := run_stmts (parse_nss w) bst_init [] [] [] [] in
-    show_sep " " (fun x => x) a ++ "|" ++ show_sep " " (fun x => x) b.
+    let '(a, b, c) := run_stmts (parse_nss w) bst_init [] [] [] [] [] in
+    show_sep " " (fun x => x) a ++ "|" ++ show_sep " " (fun x => x) b ++ "|" ++ show_sep " " (fun x => x) c.
 
   (* value level: every group is one key description, evaluated in order (declared, so `9 i` may refer back);
      output: per value has_hash and hash, then the matrix of == (row i: value i against every value) *)
